@@ -27,6 +27,9 @@ TEMPLATES = {
     "tmpl/noblank.zot": "# header only, no blank line\n## never used\n",
     "tmpl/plain.zot": "# x\n\n##\n## plain {{ raw }}\n  ##\n##x\n",
     "tmpl/ticket.zot": "# ticket\n\n## TICKET {{ id }}\n",
+    # tells a captured EMPTY string from a variable that is not there
+    "tmpl/topic.zot": "# topic\n\n## {{ date.strftime('%Y-%m-%d') }} [{{ topic | default('general') }}] "
+                      "{% if topic is defined %}given{% else %}absent{% endif %}\n",
 }
 PATTERNS = [
     (r"^(?P<date>[0-9]{8})\.zo$", "tmpl/day.zot"),
@@ -39,10 +42,12 @@ PATTERNS = [
     (r".*_np\.zo$", "tmpl/noblank.zot"),
     (r"^prj/.*$", "tmpl/plain.zot"),
     (r"^t/(?P<id>[0-9]+)\.zo$", "tmpl/ticket.zot"),       # purely numeric captures of any length
+    (r"^notes/(?P<date>[0-9]{8})_?(?P<topic>[a-z]*)\.zo$", "tmpl/topic.zot"),     # a group that may capture the empty string
 ]
 TARGETS = ["20240105", "20240105.zo", "log/20240229", "work/20240105", "home/20240105", "work/20241305", "prj/alpha",
            "prj/beta_x", "240105", "zzz", "sub/deep/none", "x_np", "prj/Alpha", "20240100", "home/20240105.zo",
-           "t/123456", "t/2024111", "t/20240105", "t/12", "123456", "t/202411", "t/1234567890"]
+           "t/123456", "t/2024111", "t/20240105", "t/12", "123456", "t/202411", "t/1234567890",
+           "notes/20240106", "notes/20240106_math", "notes/20240107_", "notes/20240106"]
 
 
 def gen_case(rng):
@@ -58,7 +63,7 @@ def gen_case(rng):
         target = rng.choice(TARGETS)
         template = rng.choice([None, None, None, "tmpl/prj.zot", "tmpl/day.zot", "tmpl/missing.zot"])
         vars_ = rng.choice([None, {}, {"parent": "home_page"}, {"parent": "p", "name": "from_vars"}, {"raw": "20240105"},
-                            {"date": "20240202", "parent": "q"}, {"name": "n", "date": "not-a-date"}])
+                            {"date": "20240202", "parent": "q"}, {"name": "n", "date": "not-a-date"}, {"topic": "fromcaller"}])
         ops.append({"target": target, "template": template, "vars": vars_, "overwrite": rng.random() < 0.2})
     return {"files": files, "pats": pats, "ops": ops}
 
